@@ -217,13 +217,13 @@ Qed.
 (* ------------------------------------------------------------------ main theorem *)
 (* [tb] is what the file carries for the body (the body itself in a binary file, its text in a
    text file) and [trailing] whatever follows in the file *)
-Theorem response_wire_roundtrip_gen : forall text conv r tb trailing,
+Theorem response_wire_roundtrip_gen : forall text conv cw r tb trailing,
   good_status (r_status r) -> good_headers (r_headers r) -> declared_length r ->
   conv tb = Ok (r_body r) ->
-  read_body (Some (Z.of_nat (length (r_body r)))) (tb ++ trailing) = (tb, trailing) ->
-  resp_from_file text conv (wire_head r ++ tb ++ trailing) = Ok (cl_last r, trailing).
+  read_body cw (Some (Z.of_nat (length (r_body r)))) (tb ++ trailing) = (tb, trailing) ->
+  resp_from_file text conv cw (wire_head r ++ tb ++ trailing) = Ok (cl_last r, trailing).
 Proof.
-  intros text conv r tb trailing Hs Hh Hd Hconv Hread.
+  intros text conv cw r tb trailing Hs Hh Hd Hconv Hread.
   rewrite wire_head_join. unfold resp_from_file.
   rewrite readline_join.
   2:{ apply no_lf_app; [repeat constructor; discriminate|apply good_status_no_lf; assumption]. }
@@ -246,30 +246,24 @@ Qed.
 (* binary file: the wire form itself, followed by anything *)
 Theorem response_wire_roundtrip : forall text r trailing,
   good_status (r_status r) -> good_headers (r_headers r) -> declared_length r ->
-  resp_from_file text conv_id (resp_wire r ++ trailing) = Ok (cl_last r, trailing).
+  resp_from_file text conv_id one_byte (resp_wire r ++ trailing) = Ok (cl_last r, trailing).
 Proof.
   intros text r trailing Hs Hh Hd.
   replace (resp_wire r ++ trailing) with (wire_head r ++ r_body r ++ trailing).
-  - apply response_wire_roundtrip_gen; try assumption; [reflexivity|].
-    unfold read_body.
-    destruct (Z.ltb_spec (Z.of_nat (length (r_body r))) 0); [lia|]. cbn [orb].
-    destruct (Z.leb_spec (Z.of_nat (length (r_body r ++ trailing))) (Z.of_nat (length (r_body r)))) as [Hle|Hgt].
-    + rewrite app_length in Hle. destruct trailing; [rewrite app_nil_r; reflexivity|cbn [length] in Hle; lia].
-    + rewrite Nat2Z.id, firstn_length_app, skipn_length_app. reflexivity.
+  - apply response_wire_roundtrip_gen; try assumption; [reflexivity|]. apply read_body_exact.
   - unfold resp_wire, wire_head. rewrite <- !app_assoc. reflexivity.
 Qed.
 
-(* text file: the body as text t whose encoding is the body (never longer than the body) *)
-Theorem response_wire_roundtrip_text : forall conv r t,
+(* text file: the body as text t that encodes (character widths cw) to exactly the declared number
+   of bytes — followed by anything: Content-Length is counted in bytes, not in characters *)
+Theorem response_wire_roundtrip_text : forall conv cw r t trailing,
   good_status (r_status r) -> good_headers (r_headers r) -> declared_length r ->
-  conv t = Ok (r_body r) -> (length t <= length (r_body r))%nat ->
-  resp_from_file true conv (wire_head r ++ t) = Ok (cl_last r, []).
+  conv t = Ok (r_body r) -> sane_widths cw t -> text_width cw t = length (r_body r) ->
+  resp_from_file true conv cw (wire_head r ++ t ++ trailing) = Ok (cl_last r, trailing).
 Proof.
-  intros conv r t Hs Hh Hd Hc Hlen.
-  rewrite <- (app_nil_r t) at 1. apply response_wire_roundtrip_gen; try assumption.
-  unfold read_body. rewrite app_nil_r.
-  destruct (Z.ltb_spec (Z.of_nat (length (r_body r))) 0); [lia|]. cbn [orb].
-  destruct (Z.leb_spec (Z.of_nat (length t)) (Z.of_nat (length (r_body r)))); [reflexivity|lia].
+  intros conv cw r t trailing Hs Hh Hd Hc Hw Hlen.
+  apply response_wire_roundtrip_gen; try assumption.
+  rewrite <- Hlen. apply read_body_width. assumption.
 Qed.
 
 (* ------------------------------------------------------------------ Response.__str__ *)
@@ -290,14 +284,14 @@ Qed.
 
 
 (* from_file on a CRLF-joined message whose first line is the bare status *)
-Lemma str_parse text conv st hl (tl : list str) b :
+Lemma str_parse text conv cw st hl (tl : list str) b :
   good_status st -> good_headers hl -> (text = false -> ascii_only st = true) ->
   (tl = [] /\ b = [] \/ tl = [[]; b]) ->
-  resp_from_file text conv (join CRLF (st :: map hline hl ++ tl)) =
+  resp_from_file text conv cw (join CRLF (st :: map hline hl ++ tl)) =
   match resp_clen hl with
   | Er x => Er x
   | Ok n =>
-      let '(raw, s3) := read_body (Some n) b in
+      let '(raw, s3) := read_body cw (Some n) b in
       match conv raw with
       | Er x => Er x
       | Ok body => Ok (mkResp st (filter (fun p => negb (is_cl p)) hl ++ [(n_CL, dec_len body)]) body, s3)
@@ -317,22 +311,21 @@ Proof.
   cbn [rev app]. rewrite status_ok_good by assumption. reflexivity.
 Qed.
 
-Theorem response_str_roundtrip : forall text conv r t,
+Theorem response_str_roundtrip : forall text conv cw r t,
   good_status (r_status r) -> good_headers (r_headers r) -> declared_length r ->
   (text = false -> ascii_only (r_status r) = true) ->
-  conv t = Ok (r_body r) -> conv [] = Ok [] -> (length t <= length (r_body r))%nat ->
-  resp_from_file text conv (resp_str r t) = Ok (cl_last r, []).
+  conv t = Ok (r_body r) -> conv [] = Ok [] -> sane_widths cw t -> text_width cw t = length (r_body r) ->
+  resp_from_file text conv cw (resp_str r t) = Ok (cl_last r, []).
 Proof.
-  intros text conv [st hl body] t Hs Hh Hd Hasc Hc Hc0 Hlen.
+  intros text conv cw [st hl body] t Hs Hh Hd Hasc Hc Hc0 Hw Hlen.
   pose proof (declared_clen _ Hd) as Hcl.
   unfold resp_str, cl_last. cbn [r_status r_headers r_body] in *.
   destruct body as [|b0 body].
-  - rewrite (str_parse text conv st hl _ []); [|assumption|assumption|assumption|left; split; reflexivity].
+  - rewrite (str_parse text conv cw st hl _ []); [|assumption|assumption|assumption|left; split; reflexivity].
     rewrite Hcl. cbn. rewrite Hc0. reflexivity.
-  - rewrite (str_parse text conv st hl _ t); [|assumption|assumption|assumption|right; reflexivity].
+  - rewrite (str_parse text conv cw st hl _ t); [|assumption|assumption|assumption|right; reflexivity].
     rewrite Hcl.
-    assert (Hread : read_body (Some (Z.of_nat (length (b0 :: body)))) t = (t, [])).
-    { unfold read_body. destruct (Z.ltb_spec (Z.of_nat (length (b0 :: body))) 0); [lia|]. cbn [orb].
-      destruct (Z.leb_spec (Z.of_nat (length t)) (Z.of_nat (length (b0 :: body)))); [reflexivity|lia]. }
+    assert (Hread : read_body cw (Some (Z.of_nat (length (b0 :: body)))) t = (t, [])).
+    { rewrite <- Hlen. rewrite <- (app_nil_r t) at 2. apply read_body_width. assumption. }
     rewrite Hread, Hc. reflexivity.
 Qed.
